@@ -62,15 +62,24 @@ Proof. reflexivity. Qed.
 
 (* ---- tactics *)
 Create HintDb pyset.
-#[local] Hint Unfold set_pduData set_pduExpectingReply set_pduNetworkPriority set_npduVersion set_npduControl set_npduDADR set_npduSADR set_npduHopCount set_npduNetMessage set_npduVendorID set_wirtnNetwork set_iartnNetworkList set_icbrtnNetwork set_icbrtnPerformanceIndex set_rmtnRejectionReason set_rmtnDNET set_rbtnNetworkList set_ratnNetworkList set_irtTable set_irtaTable set_ectnDNET set_ectnTerminationTime set_dctnDNET set_nniNet set_nniFlag : pyset.
+#[export] Hint Unfold set_pduData set_pduExpectingReply set_pduNetworkPriority set_npduVersion set_npduControl set_npduDADR set_npduSADR set_npduHopCount set_npduNetMessage set_npduVendorID set_wirtnNetwork set_iartnNetworkList set_icbrtnNetwork set_icbrtnPerformanceIndex set_rmtnRejectionReason set_rmtnDNET set_rbtnNetworkList set_ratnNetworkList set_irtTable set_irtaTable set_ectnDNET set_ectnTerminationTime set_dctnDNET set_nniNet set_nniFlag : pyset.
 Ltac step :=
   match goal with
   | |- context [put ?x] => destruct (put x)
+  | |- context [get_short ?l] => lazymatch l with _ :: _ => fail | [] => fail | _ => destruct l as [|? [|? ?]] eqn:? end
+  | |- context [Base.get ?l] => lazymatch l with _ :: _ => fail | [] => fail | _ => destruct l eqn:? end
   | |- context [if ?c then _ else _] => destruct c eqn:?
   | |- context [match ?x with _ => _ end] => destruct x eqn:?
   end.
 Ltac norm := cbn -[put put_short put_long N.ltb N.leb N.eqb N.land N.lor N.div N.modulo N.mul N.add lenN firstn skipn] in *.
-Ltac tidy := autounfold with pyset in *; norm; rewrite <- ?app_assoc, ?app_nil_r; try reflexivity; try discriminate.
+Ltac lits :=
+  repeat match goal with
+  | |- context [put 0] => change (put 0) with (@Ok (list N) [0])
+  | |- context [put (Npos ?p)] => let v := eval vm_compute in (put (Npos p)) in change (put (Npos p)) with v
+  | |- context [put_short (Npos ?p)] => let v := eval vm_compute in (put_short (Npos p)) in change (put_short (Npos p)) with v
+  | |- context [put_short 0] => change (put_short 0) with [0; 0]
+  end.
+Ltac tidy := autounfold with pyset in *; lits; norm; repeat (progress (rewrite <- ?app_assoc, ?app_nil_r; cbn [app])); try reflexivity; try discriminate.
 Ltac crush := tidy; repeat (step; tidy).
 
 Lemma app_data_app a b p : app_data b (app_data a p) = app_data (a ++ b) p.
@@ -314,3 +323,4 @@ Proof.
   unfold InitializeRoutingTableAck_decode, InitializeRoutingTableAck_messageType.
   table_decode mk_InitializeRoutingTableAck irtaTable set_irtaTable.
 Qed.
+
